@@ -2,7 +2,8 @@
  * (supla_esp_cfgmode_get_html_template of both html sources, supla_esp_http_ok, supla_esp_set_state,
  * supla_esp_recv_callback for GET) with the real vsnprintf and prints what espconn_sent received.
  * events:  CFG : <image A>   CFGB : <image B>   NAME : <dev_name>   MAC : <6 bytes>   ADD : <additional settings>
- *          STATE : <message>   RENDER <variant> <data_saved>   GET
+ *          STATE : <message>   WIFICONNECT <sdk status>   WIFISTATUS <sdk status>   (history of the last-state text)
+ *          RENDER <variant> <data_saved>   GET
  *          FORMB : <request B>   FORM : <request A>   (POST of a form through the real supla_esp_recv_callback on a fresh
  *                 connection: request A on image A, request B on image B; the saved images become the new images A and B)
  * outputs: PAGE <v> <ds> <alloc size> <truncated> : <header+page of image A>
@@ -27,6 +28,25 @@ void supla_esp_http_ok(struct espconn *pespconn, char *html);
 void supla_esp_recv_callback(void *arg, char *pdata, unsigned short len);
 void supla_esp_connectcb(void *arg);
 void supla_esp_discon_callback(void *arg);
+void supla_esp_wifi_init(void);
+void supla_esp_wifi_check_status(void *ptr);
+typedef void (*_wifi_void_status)(uint8 status);
+void supla_esp_wifi_station_connect(_wifi_void_status status_cb);
+
+/* the history that produces the last-state text: replayed under each configuration image before a page is rendered,
+ * so that messages the firmware formats from the configuration are produced from THAT configuration */
+#define LOG_MAX 64
+static struct { int kind; int n; char *msg; } st_log[LOG_MAX]; static int st_nlog = 0;
+static void replay_state(void) {
+  char *ls = (char *)supla_esp_get_laststate();
+  memset(ls, 0, STATE_MAXSIZE);
+  supla_esp_wifi_init();                          /* last_status = STATION_GOT_IP + 1 */
+  for (int i = 0; i < st_nlog; i++) {
+    if (st_log[i].kind == 0) supla_esp_set_state(LOG_DEBUG, st_log[i].msg);
+    else if (st_log[i].kind == 1) { v_wifi_status = st_log[i].n; supla_esp_wifi_station_connect(NULL); }
+    else { v_wifi_status = st_log[i].n; v_advance(200000); }      /* the 200 ms status poll timer */
+  }
+}
 
 static unsigned char imgA[sizeof(SuplaEspCfg)], imgB[sizeof(SuplaEspCfg)];
 static char dev_name[25]; static char mac[6];
@@ -45,6 +65,7 @@ static tmpl_fn fns[7] = { c15_tmpl_v0, c15_tmpl_v1, c15_tmpl_v2, c15_tmpl_v3, c1
 static void render(const char *kind, const unsigned char *img, int v, int ds) {
   struct espconn conn; memset(&conn, 0, sizeof conn);
   memcpy(&supla_esp_cfg, img, sizeof(SuplaEspCfg));
+  replay_state();
   c15_reset(); sent_n = 0;
   char nm[25]; memcpy(nm, dev_name, 25);
   char *buf = fns[v](nm, mac, (char)ds);
@@ -64,6 +85,7 @@ static void post_form(const char *kind, const char *ckind, unsigned char *img, c
   struct espconn conn; esp_tcp tcp; memset(&conn, 0, sizeof conn); memset(&tcp, 0, sizeof tcp);
   conn.type = ESPCONN_TCP; conn.proto.tcp = &tcp;
   memcpy(&supla_esp_cfg, img, sizeof(SuplaEspCfg));
+  replay_state();
   supla_esp_connectcb(&conn);
   c15_reset(); sent_n = 0; saves = 0;
   char *seg = malloc(len ? len : 1); memcpy(seg, req, len);
@@ -92,7 +114,9 @@ static void run_case(int n, char **lines) {
     else if (strncmp(l, "NAME", 4) == 0) { memset(dev_name, 0, sizeof dev_name); memcpy(dev_name, buf, len < 24 ? len : 24); }
     else if (strncmp(l, "MAC", 3) == 0) { memset(mac, 0, 6); memcpy(mac, buf, len < 6 ? len : 6); }
     else if (strncmp(l, "ADD", 3) == 0) { snprintf(c15_addsett, sizeof c15_addsett, "%s", (char *)buf); }
-    else if (strncmp(l, "STATE", 5) == 0) { supla_esp_set_state(LOG_DEBUG, (char *)buf); }
+    else if (strncmp(l, "STATE", 5) == 0) { if (st_nlog < LOG_MAX) { st_log[st_nlog].kind = 0; st_log[st_nlog].msg = strdup((char *)buf); st_nlog++; } }
+    else if (strncmp(l, "WIFICONNECT", 11) == 0) { if (st_nlog < LOG_MAX) { st_log[st_nlog].kind = 1; st_log[st_nlog].n = atoi(l + 11); st_nlog++; } }
+    else if (strncmp(l, "WIFISTATUS", 10) == 0) { if (st_nlog < LOG_MAX) { st_log[st_nlog].kind = 2; st_log[st_nlog].n = atoi(l + 10); st_nlog++; } }
     else if (strncmp(l, "FORMB", 5) == 0) { memcpy(reqb, buf, len); reqb_n = len; }
     else if (strncmp(l, "FORM", 4) == 0) {
       if (len > 65535) len = 65535;
@@ -108,6 +132,7 @@ static void run_case(int n, char **lines) {
       struct espconn conn; esp_tcp tcp; memset(&conn, 0, sizeof conn); memset(&tcp, 0, sizeof tcp);
       conn.type = ESPCONN_TCP; conn.proto.tcp = &tcp;
       memcpy(&supla_esp_cfg, imgA, sizeof(SuplaEspCfg));
+      replay_state();
       c15_reset(); sent_n = 0;
       supla_esp_connectcb(&conn);
       char req[] = "GET / HTTP/1.1\r\nHost: 192.168.4.1\r\n\r\n";
